@@ -3,7 +3,7 @@
 # Applies behaviour-preserving refactorings (as many of the diffs as apply together) to a scratch
 # worktree and runs the quick checks: every one of them must still exit 0 (false-alarm test).
 cd /verif
-D=$1; shift
+D=$(cd "$1" && pwd); shift
 R=${SEED_REPO:-/tmp/wt2}
 props="$@"; [ -z "$props" ] && props=$(python3 -c "import json; print(' '.join(c['property_id'] for c in json.load(open('MANIFEST.json'))['checks']))")
 git -C $R checkout -q -- .
